@@ -538,7 +538,13 @@ func (n *ForNode) renderForLoop(w io.Writer, ctx *RenderContext, seq interface{}
 		}
 
 	case reflect.String:
-		for i, char := range val.String() {
+		length = len([]rune(val.String()))
+		loopVars["loop"].(map[string]interface{})["length"] = length
+		i := -1
+		for _, char := range val.String() {
+			// Positions count characters, not bytes
+			i++
+
 			// Set the loop variables
 			loopVars["loop"].(map[string]interface{})["index"] = i + 1
 			loopVars["loop"].(map[string]interface{})["index0"] = i
